@@ -259,6 +259,11 @@ class PropertyDescriptor(Symbol):
         """
         if isinstance(value, PropertyDescriptor):
             return
+        if value is None and self.is_iterable:
+            # a collection field that may be missing (Optional[List[...]] = None): None stands for no elements, the
+            # field still needs its container to take what is inferred into it
+            container_type = self.wrapped_field.container_type
+            value = container_type() if container_type in monitored_type_map else []
         attr = getattr(obj, self.private_attr_name, None)
         if self.is_iterable and not isinstance(attr, MonitoredContainer):
             attr = self._ensure_monitored_type(value, obj)
